@@ -816,6 +816,38 @@ def mc_args(prog: Program) -> RuleResult:
     return r
 
 
+def _sg_purge(prog):
+    # an element written to a field is recorded unless its relation "exists": a pair a swept instance left in the relation index answers for
+    # whoever reuses its node index
+    from .c14 import sg_purge_directions
+
+    return sg_purge_directions(prog)
+
+
+def pd_element(prog: Program) -> RuleResult:
+    """The recording hook is handed the elements one by one, and an element is related as it is. A domain object may well be iterable itself
+    (a Team that iterates over its members): probing the element for __iter__ and relating what it yields records relations to the
+    element's *contents* instead of the element - or raises when those are of another class."""
+    r = RuleResult("PD-ELEMENT", "an element handed to the recording hook is related as it is, never iterated", floor=1)
+    f = prog.method(PD, "add_relation_to_the_graph", inherited=False)
+    if f is None or len(f.params) < 3:
+        raise AnalysisError("PD-ELEMENT: PropertyDescriptor.add_relation_to_the_graph(self, domain_value, range_value, ...) vanished")
+    rv = f.params[2]
+    bad = None
+    for x in walk_local(f.node):
+        if isinstance(x, (ast.For, ast.comprehension)) and any(isinstance(y, ast.Name) and y.id == rv for y in ast.walk(x.iter)):
+            bad = bad or x.iter
+        if isinstance(x, ast.Call) and call_name(x) in ("make_set", "make_list", "set", "list", "tuple", "iter", "sorted", "frozenset") and any(isinstance(y, ast.Name) and y.id == rv for a in x.args for y in ast.walk(a)):
+            bad = bad or x
+    rel = [c for c in calls_in(f.node) if call_name(c) == "PropertyDescriptorRelation"]
+    direct = bool(rel) and all(len(c.args) >= 2 and isinstance(c.args[1], ast.Name) and c.args[1].id == rv for c in rel)
+    r.check(bad is None and direct, "PropertyDescriptor.add_relation_to_the_graph#element-as-it-is", site(f, bad) if bad is not None else site(f), src(bad)[:60] if bad is not None else "",
+            "the relation's target is the element handed in",
+            f"the element is iterated ({src(bad)[:40] if bad is not None else 'the target is not the parameter'}): an element that is iterable itself - a Team whose __iter__ yields its members - is "
+            "replaced by its contents: b.member_of.append(team) relates b to the team's members (and raises when they have no inverse field) instead of to the team")
+    return r
+
+
 def _pd_field(prog):
     # an append whose inferred inverse-of-inverse is not recognised as the relation being asserted writes the element a second time
     from .c15 import pd_field
@@ -825,4 +857,4 @@ def _pd_field(prog):
 
 def run(prog: Program, tier: str) -> List[RuleResult]:
     alias = pd_alias(prog)
-    return [_pd_field(prog), mc_cover(prog), mc_hook(prog), alias, pd_aug(prog, not alias.failed), pd_seq(prog), pd_single(prog), mc_once(prog), pd_fresh(prog), mc_eq(prog), mc_args(prog), user_truth(prog, ["property_descriptor.property_descriptor", "property_descriptor.monitored_container", "property_descriptor.property_descriptor_relation"], 2)]
+    return [_pd_field(prog), _sg_purge(prog), pd_element(prog), mc_cover(prog), mc_hook(prog), alias, pd_aug(prog, not alias.failed), pd_seq(prog), pd_single(prog), mc_once(prog), pd_fresh(prog), mc_eq(prog), mc_args(prog), user_truth(prog, ["property_descriptor.property_descriptor", "property_descriptor.monitored_container", "property_descriptor.property_descriptor_relation"], 2)]
